@@ -82,6 +82,8 @@ def gen_value(rng, U: Universe, f: FS, hostile: float = 0.15) -> Any:
         return rng.choice([None] + U.module.__dict__[f"{U.P}SYMBOLS"])
     if k == "bytes":
         return rng.choice([b"", b"abc", b"caf\xe9", b"caf\xe8", b"\xff\xfe", b"\xef\xbf\xbd", b"caf\xc3\xa9", b"\x00", b"abd"])
+    if k == "handle":
+        return U.module.__dict__["_HANDLE"]  # (the one opaque handle object of the generated module)
     if k == "fset":
         n = rng.randint(0, 4)
         pool = [0, 8, 16, 24, 32, 1, 2, -1, -2, 2**61 - 1]  # incl. members whose builtin hashes coincide (-1 / -2, 0 / 2**61-1)
